@@ -51,17 +51,17 @@ structure Hashes where
 
 /-- `readKey`: up to the first `=` or separator -/
 def readKey (s : Bytes) (sep : UInt8) : Bytes × Bytes :=
-  s.span fun c => c != cEq && c != sep
+  (s.takeWhile (fun c => c != cEq && c != sep), s.dropWhile (fun c => c != cEq && c != sep))
 
 /-- `readValue` (`none` = "apexes not closed") -/
 def readValue (s : Bytes) (sep : UInt8) : Option (Bytes × Bytes) :=
   match s with
   | c :: t =>
     if c = cQuote then
-      match t.span (· != cQuote) with
-      | (v, _ :: rest) => some (v, rest)
-      | (_, []) => none
-    else some (s.span (· != sep))
+      match t.dropWhile (· != cQuote) with
+      | _ :: rest => some (t.takeWhile (· != cQuote), rest)
+      | [] => none
+    else some (s.takeWhile (· != sep), s.dropWhile (· != sep))
   | [] => some ([], [])
 
 /-- one iteration of the `for len(str) > 0` loop of `keyValParse`: a key, its value (`""` when
@@ -134,9 +134,9 @@ def algOf (kvs : List (Bytes × Bytes)) : Option (Option Alg) :=
 
 /-- `strings.Cut(v0, " ")` -/
 def cutSpace (s : Bytes) : Option (Bytes × Bytes) :=
-  match s.span (· != cSpace) with
-  | (a, _ :: b) => some (a, b)
-  | (_, []) => none
+  match s.dropWhile (· != cSpace) with
+  | _ :: b => some (s.takeWhile (· != cSpace), b)
+  | [] => none
 
 /-- `headers.Authenticate` (the `Opaque` and `Stale` fields are parsed by the Go code but are
 used neither by `auth.Sender` nor by `GenerateWWWAuthenticate`; they are not modelled) -/
@@ -174,16 +174,26 @@ def Authenticate.unmarshal (v : List Bytes) : Option Authenticate :=
       else none
   | _ => none
 
-def algSuffix : Option Alg → Bytes
+/-- `key="value"` -/
+def kvQ (kv : Bytes × Bytes) : Bytes := kv.1 ++ cEq :: cQuote :: (kv.2 ++ [cQuote])
+
+/-- `k1="v1", k2="v2", …`: the text the two `Marshal` functions build by string concatenation -/
+def joinKv : List (Bytes × Bytes) → Bytes
+  | [] => []
+  | [kv] => kvQ kv
+  | kv :: rest => kvQ kv ++ cComma :: cSpace :: joinKv rest
+
+/-- `, algorithm="MD5"` / `, algorithm="SHA-256"` / nothing -/
+def algKv : Option Alg → List (Bytes × Bytes)
   | none => []
-  | some .md5 => b!", algorithm=\"MD5\""
-  | some .sha256 => b!", algorithm=\"SHA-256\""
+  | some .md5 => [(b!"algorithm", b!"MD5")]
+  | some .sha256 => [(b!"algorithm", b!"SHA-256")]
 
 /-- `Authenticate.Marshal` (one header value) -/
 def Authenticate.marshal (h : Authenticate) : Bytes :=
   match h.method with
-  | .basic => b!"Basic realm=\"" ++ h.realm ++ b!"\""
-  | .digest => b!"Digest realm=\"" ++ h.realm ++ b!"\", nonce=\"" ++ h.nonce ++ b!"\"" ++ algSuffix h.algorithm
+  | .basic => b!"Basic " ++ joinKv [(b!"realm", h.realm)]
+  | .digest => b!"Digest " ++ joinKv ([(b!"realm", h.realm), (b!"nonce", h.nonce)] ++ algKv h.algorithm)
 
 /-- `headers.Authorization` (`Opaque` is never set by `auth.Sender` and never read by
 `auth.Verify`; not modelled) -/
@@ -200,9 +210,9 @@ deriving DecidableEq, Repr, Inhabited
 
 /-- Basic credentials: split of the decoded text at the first `:` (error when there is none) -/
 def splitUserPass (t : Bytes) : Option (Bytes × Bytes) :=
-  match t.span (· != cColon) with
-  | (u, _ :: p) => some (u, p)
-  | (_, []) => none
+  match t.dropWhile (· != cColon) with
+  | _ :: p => some (t.takeWhile (· != cColon), p)
+  | [] => none
 
 /-- `Authorization.Unmarshal` -/
 def Authorization.unmarshal (v : List Bytes) : Option Authorization :=
@@ -239,9 +249,8 @@ def Authorization.marshal (h : Authorization) : Bytes :=
   match h.method with
   | .basic => b!"Basic " ++ B64Std.encode (h.username ++ [cColon] ++ h.basicPass)
   | .digest =>
-    b!"Digest username=\"" ++ h.username ++ b!"\", realm=\"" ++ h.realm ++
-    b!"\", nonce=\"" ++ h.nonce ++ b!"\", uri=\"" ++ h.uri ++ b!"\", response=\"" ++ h.response ++
-    b!"\"" ++ algSuffix h.algorithm
+    b!"Digest " ++ joinKv ([(b!"username", h.username), (b!"realm", h.realm), (b!"nonce", h.nonce),
+      (b!"uri", h.uri), (b!"response", h.response)] ++ algKv h.algorithm)
 
 /-! ## pkg/auth/www_authenticate.go -/
 
@@ -383,6 +392,10 @@ def verify (H : Hashes) (req : Req) (user pass : Bytes) (methods : Option (List 
 
 /-- `serverAuthRealm` (tied to the regenerated fact in `Props/C10`) -/
 def serverAuthRealm : Bytes := b!"ipcam"
+
+/-- `Server.Start`: `if len(s.AuthMethods) == 0 { s.AuthMethods = {Basic, DigestMD5} }` -/
+def serverMethods (cfg : List VerifyMethod) : List VerifyMethod :=
+  if cfg.isEmpty then [vmBasic, vmMD5] else cfg
 
 /-- `credentialsProvided` -/
 def credentialsProvided (authz : List Bytes) : Bool :=
